@@ -105,3 +105,209 @@ MUTATORS = (
     "Cluster.mark_complete",
     "Cluster.mark_canceled",
 )
+
+
+# --------------------------------------------------------------------------
+# Submitter-role typestate (T5) shared by C01.1 / C05.6 / C10.4 / C13.2 / C14.4
+# --------------------------------------------------------------------------
+ROLE_SITES = PROMOTE_SITES + ("JobSubmitter.run_submit_jobs",)
+
+
+class RoleReport:
+    def __init__(self):
+        self.demote_ok = []  # (fn, node, state set)
+        self.demote_bad = []  # (fn, node, state, why)
+        self.mutator_ok = []
+        self.mutator_bad = []
+        self.leaks = []  # (fn, node, mode)  role still held at a normal exit
+        self.exits_ok = []
+        self.handles = 0
+
+
+def _deserialize_promote_call(ctx, fn, call):
+    site = ctx.cg.site_of(fn, call)
+    if site is None or not site.calls_short(ctx.ix, "Cluster.deserialize"):
+        return False
+    callee = ctx.ix.find_func("Cluster.deserialize")
+    arg = ctx.arg_for(site, callee, "try_promote_to_submitter")
+    return isinstance(arg, ast.Constant) and arg.value is True
+
+
+def role_typestate(ctx, fn):
+    """Walk every path of fn with the automaton
+         U (handle loaded, promotion not yet examined) -> P (promoted, role held) | N (not promoted)
+         P -> D on demote_from_submitter()
+    and report demotes / mutating calls outside P and normal exits inside P."""
+    from ..lib import typestate
+
+    cfg = ctx.cfg(fn)
+    rep = RoleReport()
+    cluster_vars, promoted_vars = set(), set()
+    init_nodes = {}
+    for n in cfg.nodes:
+        if n.kind != "stmt" or not isinstance(n.ast, ast.Assign):
+            continue
+        v = n.ast.value
+        if not isinstance(v, ast.Call):
+            continue
+        site = ctx.cg.site_of(fn, v)
+        if site is None:
+            continue
+        t = n.ast.targets[0]
+        if _deserialize_promote_call(ctx, fn, v):
+            if not (isinstance(t, ast.Tuple) and len(t.elts) == 2 and all(isinstance(e, ast.Name) for e in t.elts)):
+                raise AnalysisError("T5", f"{fn.loc(n.ast)}: result of Cluster.deserialize(try_promote_to_submitter=True) is not unpacked into (cluster, promoted)")
+            cluster_vars.add(t.elts[0].id)
+            promoted_vars.add(t.elts[1].id)
+            init_nodes[n.id] = "U"
+        elif site.calls_short(ctx.ix, "Cluster.create") and isinstance(t, ast.Name):
+            cluster_vars.add(t.id)
+            init_nodes[n.id] = "P"
+    if not init_nodes:
+        raise AnalysisError("T5", f"{fn.short}: no Cluster.deserialize(try_promote_to_submitter=True) / Cluster.create handle found")
+    if len(cluster_vars) != 1:
+        raise AnalysisError("T5", f"{fn.short}: several cluster handles {sorted(cluster_vars)}")
+    cvar = next(iter(cluster_vars))
+    rep.handles = len(init_nodes)
+    demote_q = ctx.ix.find_func("Cluster.demote_from_submitter").qual
+    internal_demote = ctx.ix.find_func("Cluster._demote_from_submitter")
+
+    def classify(call):
+        site = ctx.cg.site_of(fn, call)
+        if site is None:
+            return None
+        recv = call.func.value if isinstance(call.func, ast.Attribute) else None
+        on_handle = isinstance(recv, ast.Name) and recv.id == cvar
+        passes = any(isinstance(a, ast.Name) and a.id == cvar for a in list(call.args) + [k.value for k in call.keywords])
+        if on_handle and demote_q in site.callees:
+            return "demote"
+        for m in MUTATORS:
+            if site.calls_short(ctx.ix, m) and (on_handle or passes):
+                return "mutate"
+        if passes or on_handle:
+            # handle escapes into another function: must not demote there
+            for q in site.targets():
+                f2 = ctx.ix.functions.get(q)
+                if f2 is not None and f2.short not in ("Cluster.demote_from_submitter",):
+                    hits, _ = ctx.cg.reaches([q], lambda f: f is internal_demote)
+                    if hits and not on_handle:
+                        raise AnalysisError("T5", f"{fn.loc(call)}: cluster handle passed to {f2.short}, which may demote (unrecognised idiom)")
+        return None
+
+    def node_fn(n, st):
+        role, mode = st
+        if n.id in init_nodes:
+            return (init_nodes[n.id], mode)
+        if n.kind in ("stmt", "test", "for", "with"):
+            for call in cfg.calls_at(n):
+                kind = classify(call)
+                if kind == "demote":
+                    if role == "P":
+                        rep.demote_ok.append((fn, call))
+                    else:
+                        rep.demote_bad.append((fn, call, role))
+                    role = "D"
+                elif kind == "mutate":
+                    if role == "P":
+                        rep.mutator_ok.append((fn, call))
+                    else:
+                        rep.mutator_bad.append((fn, call, role))
+        return (role, mode)
+
+    def edge_fn(src, dst, k, c, st):
+        role, mode = st
+        if k == "exc":
+            from ..cfg import _is_exit_call
+
+            is_exit = (
+                src.kind == "stmt"
+                and isinstance(src.ast, ast.Expr)
+                and isinstance(src.ast.value, ast.Call)
+                and _is_exit_call(src.ast.value)
+            )
+            if mode == "normal":
+                mode = "sysexit" if is_exit else "exc"
+        if k in ("T", "F") and c is not None and isinstance(c, ast.Name) and c.id in promoted_vars:
+            if role == "U":
+                role = "P" if k == "T" else "N"
+            elif role == "P" and k == "F":
+                return None
+            elif role == "N" and k == "T":
+                return None
+        if src.kind == "except":
+            mode = "normal"  # a handler resumes normal execution
+        return (role, mode)
+
+    at = typestate(cfg, ("X", "normal"), node_fn, edge_fn)
+    for role, mode in at.get(cfg.exit.id, ()):
+        if role == "P":
+            rep.leaks.append((fn, fn.node, "return"))
+        elif role in ("U",):
+            rep.leaks.append((fn, fn.node, "return-unexamined"))
+        else:
+            rep.exits_ok.append((role, mode))
+    for role, mode in at.get(cfg.raise_exit.id, ()):
+        if mode == "sysexit":
+            if role in ("P", "U"):
+                rep.leaks.append((fn, fn.node, "sys.exit"))
+            else:
+                rep.exits_ok.append((role, mode))
+    # de-duplicate
+    def uniq(lst):
+        seen, out = set(), []
+        for item in lst:
+            k = (id(item[1]),) + tuple(item[2:])
+            if k not in seen:
+                seen.add(k)
+                out.append(item)
+        return out
+
+    rep.demote_ok, rep.demote_bad = uniq(rep.demote_ok), uniq(rep.demote_bad)
+    rep.mutator_ok, rep.mutator_bad = uniq(rep.mutator_ok), uniq(rep.mutator_bad)
+    rep.leaks = uniq(rep.leaks)
+    # a call seen in P on one path and outside P on another is bad
+    bad_ids = {id(x[1]) for x in rep.demote_bad}
+    rep.demote_ok = [x for x in rep.demote_ok if id(x[1]) not in bad_ids]
+    bad_ids = {id(x[1]) for x in rep.mutator_bad}
+    rep.mutator_ok = [x for x in rep.mutator_ok if id(x[1]) not in bad_ids]
+    return rep
+
+
+ROLE_NAMES = {"U": "promotion result not examined", "N": "not promoted", "D": "already demoted", "X": "no handle", "P": "promoted"}
+
+
+def report_role(ctx, r, specs, what, prop_clause):
+    """Emit obligations for the selected aspects: what subset of {'demote','mutate','leak'}."""
+    for spec in specs:
+        fn = ctx.fn(spec, "T5")
+        rep = role_typestate(ctx, fn)
+        if "demote" in what:
+            for f, call in rep.demote_ok:
+                r.ok(f"{f.short}: demote_from_submitter() only while promoted", at=f.loc(call))
+            for f, call, role in rep.demote_bad:
+                r.bad(
+                    key_of(f, f"demote_from_submitter in state {role}"),
+                    f.loc(call),
+                    f"demote_from_submitter() is reachable with the handle in state '{ROLE_NAMES[role]}': the process clears (or asserts on) a role it does not hold",
+                    prop_clause,
+                )
+        if "mutate" in what:
+            for f, call in rep.mutator_ok:
+                r.ok(f"{f.short}: {ctx.src(call.func)} only while promoted", at=f.loc(call))
+            for f, call, role in rep.mutator_bad:
+                r.bad(
+                    key_of(f, f"{ctx.src(call.func)} in state {role}"),
+                    f.loc(call),
+                    f"mutating call {ctx.src(call.func)}() is reachable with the handle in state '{ROLE_NAMES[role]}' (two processes can then act as submitter)",
+                    prop_clause,
+                )
+        if "leak" in what:
+            for f, node, how in rep.leaks:
+                r.bad(
+                    key_of(f, f"role held at {how}"),
+                    f.loc(node),
+                    f"a normal exit ({how}) is reachable while the submitter role is still held: no later round can ever be promoted",
+                    prop_clause,
+                )
+            if not rep.leaks:
+                r.ok(f"{fn.short}: role released on every normal exit", exits=sorted({f'{a}/{b}' for a, b in rep.exits_ok}))
